@@ -211,8 +211,16 @@ def parse_seed(seed):
     # pylint: disable=import-outside-toplevel
     from psyclone.psyir.frontend.fortran import FortranReader
     from psyclone.psyir.nodes import Routine
-    psyir = FortranReader().psyir_from_source(SEEDS[seed])
+    if not _READER:
+        # one reader object per process (its constructor builds the fparser2
+        # class tables, 10 ms); psyir_from_source() itself clears fparser's
+        # symbol tables and parses the text afresh on every call
+        _READER.append(FortranReader())
+    psyir = _READER[0].psyir_from_source(SEEDS[seed])
     return psyir, psyir.walk(Routine)[0]
+
+
+_READER = []
 
 
 _PARSE_TREES = {}
